@@ -6,7 +6,7 @@ import json
 import os
 import sys
 sys.path.insert(0, os.path.dirname(os.path.dirname(os.path.abspath(__file__))))
-from lsa.model import Repo, callees_of   # noqa: E402
+from lsa.model import Repo, callees_of, fingerprint   # noqa: E402
 
 repo = Repo()
 funcs = sorted({f.key + ('#setter' if f.is_setter else '') for f in repo.all_functions()})
@@ -16,7 +16,8 @@ for f in repo.all_functions():
     if f.is_setter or not f.name.startswith('_') or f.name.startswith('__'):
         continue
     private[f.key] = {'params': [p[0] for p in f.params()],
-                      'callers': sorted(k for k, cs in calls.items() if f.key in cs and k != f.key)}
+                      'callers': sorted(k for k, cs in calls.items() if f.key in cs and k != f.key),
+                      'fp': fingerprint(f)}
 path = os.path.join(os.path.dirname(os.path.dirname(os.path.abspath(__file__))), 'specs', 'known_functions.json')
 old = json.load(open(path))
 old['functions'] = funcs
